@@ -104,6 +104,9 @@ def _closure_param(prog, clo, k, depth):
     return out or {("?", "closure never used")}
 
 
+_active = []
+
+
 def prov(prog, body, place_or_op, depth=0):
     if depth > MAXD:
         return {("?", "depth")}
@@ -111,6 +114,19 @@ def prov(prog, body, place_or_op, depth=0):
         k = op_const(place_or_op)
         if k is not None:
             return {("const", k.get("int", k.get("bool", k.get("str", k.get("ty")))))}
+    # a local that (transitively) depends on itself - a loop-carried counter - is named, not unrolled
+    p0 = place_or_op if "l" in place_or_op else op_place(place_or_op)
+    key = (body.id, p0["l"], repr(p0["p"])) if p0 is not None else None
+    if key is not None and key in _active:
+        return {("var", body.path, body.local_name(p0["l"]) or "_%d" % p0["l"])}
+    _active.append(key)
+    try:
+        return _prov(prog, body, place_or_op, depth)
+    finally:
+        _active.pop()
+
+
+def _prov(prog, body, place_or_op, depth):
     out = set()
     for o in origins(body, place_or_op, transparent=_VIEW):
         flds = [f for f in o.fields]
@@ -179,7 +195,7 @@ def leaves(e):
     out = set()
     if not isinstance(e, tuple):
         return out
-    if e[0] in ("param", "?", "const"):
+    if e[0] in ("param", "?", "const", "var"):
         out.add(e)
     elif e[0] == "elem":
         out |= leaves(e[1])
@@ -230,6 +246,8 @@ def show(e, depth=0):
         return "%s(%s)" % (e[1].rsplit("::", 1)[-1], ", ".join(show(a) for a in e[2]))
     if e[0] == "const":
         return repr(e[1])
+    if e[0] == "var":
+        return "<%s>" % e[2]
     if e[0] in ("agg", "op"):
         return "%s[%s]" % (e[1], ", ".join(show(a) for a in e[2]))
     if e[0] == "alt":
